@@ -204,6 +204,7 @@ def _control_matrix_at_timestep_derivative(
         deriv_integral: ndarray,
         ctrlmat_step: ndarray,
         ctrlmat_expr: ContractExpression,
+        n_opers_unit_transformed: Optional[ndarray] = None,
 ) -> Tuple[ndarray, ndarray]:
     r"""Calculate the control matrices and corresponding derivatives.
 
@@ -360,9 +361,12 @@ def _control_matrix_at_timestep_derivative(
                                      optimize=[(1, 2), (0, 1)])
 
     if n_coeffs_deriv is not None:
-        # equivalent contraction: 'ah,a,ako->akho', but this faster
-        ctrlmat_step_deriv += ((n_coeffs_deriv / n_coeffs[:, None])[:, None, :, None]
-                               * ctrlmat_step[:, :, None])
+        # The control matrix is linear in the sensitivities. Differentiate through them with the
+        # control matrix of the noise operators with unit sensitivity instead of dividing
+        # ctrlmat_step by n_coeffs, which may vanish.
+        ctrlmat_step_unit = ctrlmat_expr(phase_factor, basis_transformed, n_opers_unit_transformed,
+                                         integral)
+        ctrlmat_step_deriv += n_coeffs_deriv[:, None, :, None] * ctrlmat_step_unit[:, :, None]
 
     return ctrlmat_step, ctrlmat_step_deriv
 
@@ -468,6 +472,9 @@ def calculate_derivative_of_control_matrix_from_scratch(
     else:
         n_opers_transformed = intermediates['n_opers_transformed'].swapaxes(0, 1)
 
+    if n_coeffs_deriv is not None:
+        n_opers_unit_transformed = numeric._transform_hamiltonian(eigvecs, n_opers).swapaxes(0, 1)
+
     propagators_liouville = superoperator.liouville_representation(propagators[:-1], basis)
     propagators_liouville_deriv = _liouville_derivative(dt, propagators, basis, eigvecs, eigvals,
                                                         c_opers_transformed)
@@ -495,7 +502,8 @@ def calculate_derivative_of_control_matrix_from_scratch(
         ctrlmat_step[g], ctrlmat_step_deriv = _control_matrix_at_timestep_derivative(
             omega, dt[g], eigvals[g], eigvecs[g], basis_transformed[g], c_opers_transformed[g],
             n_opers_transformed[g], n_coeffs[:, g], n_coeff_deriv, util.cexp(omega*t[g]), integral,
-            deriv_integral, ctrlmat_step[g], ctrlmat_expr
+            deriv_integral, ctrlmat_step[g], ctrlmat_expr,
+            None if n_coeffs_deriv is None else n_opers_unit_transformed[g]
         )
         # Phase factor already part of ctrlmat_step_deriv
         ctrlmat_deriv[:, :, g] = (ctrlmat_step_deriv.transpose(2, 3, 0, 1)
